@@ -166,7 +166,7 @@ def c09(case, out):
 def c17(case, out):
     ev, N, m, lo, up = mk(case)
     n = 0
-    xs = case["xs"]
+    xs = case["xs"][:8]
     # history independence, argument preservation, result stability
     for x in xs:
         fresh = Evolvent(np.array(lo, dtype=float), np.array(up, dtype=float), N, m)
